@@ -69,10 +69,10 @@ package tree
 //   A2  j <= i  ==>  tabs(store(a,i,t), j) == tabs(a,j)
 //   AX  (forall i in [0,j): a[i] == b[i])  ==>  tabs(a,j) == tabs(b,j)
 
-//@ smt (assert (forall ((a (Array Int DT_token)) (k Int) (t DT_token)) (! (=> (>= k 0) (= (tabs (store a k t) (+ k 1)) (snoc (tabs a k) t))) :pattern ((tabs (store a k t) (+ k 1))))))
-//@ smt (assert (forall ((a (Array Int DT_token)) (i Int) (j Int) (t DT_token)) (! (=> (<= j i) (= (tabs (store a i t) j) (tabs a j))) :pattern ((tabs (store a i t) j)))))
-//@ smt (declare-fun tabsDiff ((Array Int DT_token) (Array Int DT_token) Int) Int)
-//@ smt (assert (forall ((a (Array Int DT_token)) (b (Array Int DT_token)) (j Int)) (! (or (= (tabs a j) (tabs b j)) (and (<= 0 (tabsDiff a b j)) (< (tabsDiff a b j) j) (not (= (select a (tabsDiff a b j)) (select b (tabsDiff a b j)))))) :pattern ((tabs a j) (tabs b j)))))
+//@ smt[tabs] (assert (forall ((a (Array Int DT_token)) (k Int) (t DT_token)) (! (=> (>= k 0) (= (tabs (store a k t) (+ k 1)) (snoc (tabs a k) t))) :pattern ((tabs (store a k t) (+ k 1))))))
+//@ smt[tabs] (assert (forall ((a (Array Int DT_token)) (i Int) (j Int) (t DT_token)) (! (=> (<= j i) (= (tabs (store a i t) j) (tabs a j))) :pattern ((tabs (store a i t) j)))))
+//@ smt[tabs] (declare-fun tabsDiff ((Array Int DT_token) (Array Int DT_token) Int) Int)
+//@ smt[tabs] (assert (forall ((a (Array Int DT_token)) (b (Array Int DT_token)) (j Int)) (! (or (= (tabs a j) (tabs b j)) (and (<= 0 (tabsDiff a b j)) (< (tabsDiff a b j) j) (not (= (select a (tabsDiff a b j)) (select b (tabsDiff a b j)))))) :pattern ((tabs a j) (tabs b j)))))
 
 //@ func tokens.Add
 //@   requires soff(t.tree) == 0 && 0 <= index && index <= len(t.tree)
@@ -84,3 +84,39 @@ package tree
 //@ func tokens.Trim
 //@   requires length <= len(t.tree)
 //@   ensures  len(t.tree) == length && soff(t.tree) == old(soff(t.tree)) && sbase(t.tree) == old(sbase(t.tree))
+
+// ---------------------------------------------------------------------------------------------
+// Error positions. lineOf(a,i) / colOf(a,i): 1-based line and column of offset i in the rune array a
+// (definitions by recursion on i, unfolded at the terms marked by lcStep).
+
+//@ specfunc lineOf(a runes, i int) int
+//@ specfunc colOf(a runes, i int) int
+//@ specfunc lcStep(a runes, i int) bool
+//@ specfunc sortPerm(b int, i int) int
+//@ specfunc sortInv(b int, i int) int
+//@ smt[lineOf] (assert (forall ((a (Array Int Int))) (! (and (= (lineOf a 0) 1) (= (colOf a 0) 1)) :pattern ((lineOf a 0)) :pattern ((colOf a 0)))))
+//@ smt[lineOf] (assert (forall ((a (Array Int Int)) (i Int)) (! (lcStep a i) :pattern ((lcStep a i)))))
+//@ smt[lineOf] (assert (forall ((a (Array Int Int)) (i Int)) (! (=> (>= i 0) (and (= (lineOf a (+ i 1)) (+ (lineOf a i) (ite (= (select a i) 10) 1 0))) (= (colOf a (+ i 1)) (ite (= (select a i) 10) 1 (+ (colOf a i) 1))))) :pattern ((lcStep a i)))))
+
+//@ func translatePositions
+//@   requires len(positions) >= 1 && soff(buffer) == 0 && soff(positions) == 0 && sbase(buffer) != sbase(positions)
+//@   requires forall(q, imp(0 <= q && q < len(positions), 0 <= positions[q] && positions[q] < len(buffer)))
+//@   ensures  forall(q, imp(0 <= q && q < len(positions), mapHas(result, old(positions[q]))
+//@              && mapGet(result, old(positions[q])) == mk(textPosition, lineOf(elems(buffer), old(positions[q])), colOf(elems(buffer), old(positions[q])))))
+//@   modifies Elems.Int at b where b == sbase(positions)
+//@   modifies MapDom.Int!DT_textPosition, MapVal.Int!DT_textPosition at b where false
+//@   loop 0 invariant 0 <= posIdx && posIdx < length && length == len(positions) && idx() >= 0
+//@   loop 0 invariant lcStep(elems(buffer), idx()) && line == lineOf(elems(buffer), idx()) && symbol == colOf(elems(buffer), idx()) - 1
+//@   loop 0 invariant elems(positions) == entry(elems(positions)) && elems(buffer) == old(elems(buffer)) && allocated(translations)
+//@   loop 0 invariant forall(j, imp(0 <= j && j < posIdx, positions[j] < idx()))
+//@   loop 0 invariant forall(j, imp(0 <= j && j < posIdx, mapHas(translations, positions[j])))
+//@   loop 0 invariant forall(j, imp(0 <= j && j < posIdx, mapGet(translations, positions[j]) == mk(textPosition, lineOf(elems(buffer), positions[j]), colOf(elems(buffer), positions[j]))))
+//@   loop 0 invariant positions[posIdx] >= idx() && fresh(translations)
+//@   loop 0 invariant frameExcept("MapDom.Int!DT_textPosition", translations) && frameExcept("MapVal.Int!DT_textPosition", translations)
+//@   loop 0 invariant forall(a, b, imp(0 <= a && a <= b && b < length, positions[a] <= positions[b]))
+//@   loop 1 invariant posIdx >= 1 && posIdx <= length && length == len(positions) && elems(positions) == entry(elems(positions))
+//@   loop 1 invariant forall(j, imp(0 <= j && j < posIdx, positions[j] <= i))
+//@   loop 1 invariant posIdx >= entry(posIdx) && entry(posIdx) >= 1 && positions[entry(posIdx) - 1] == i
+//@   loop 1 invariant forall(j, imp(entry(posIdx) - 1 <= j && j < posIdx, positions[j] == i))
+//@   loop 1 invariant mapHas(translations, i) && translations == entry(translations)
+//@   loop 1 invariant forall(k, mapHas(translations, k) == entry(mapHas(translations, k))) && forall(k, mapGet(translations, k) == entry(mapGet(translations, k)))
